@@ -347,6 +347,7 @@ func (l *comparableLeafNode) unlock() { l.mutex.Unlock() }
 type ComparableTree struct {
 	root  comparableNode
 	order int
+	mutex sync.Mutex // guards root; held only until the root node is locked
 }
 
 // NewComparableTree returns a newly initialized ComparableTree of the specified
@@ -366,6 +367,8 @@ func NewComparableTree(order int) (*ComparableTree, error) {
 
 // Delete removes the key-value pair from the tree.
 func (t *ComparableTree) Delete(key Comparable) {
+	t.mutex.Lock()
+	defer t.mutex.Unlock()
 	t.root.lock()
 	defer t.root.unlock()
 
@@ -384,6 +387,7 @@ func (t *ComparableTree) Delete(key Comparable) {
 // Insert inserts the key-value pair into the tree, replacing the existing value
 // with the new value if the key is already in the tree.
 func (t *ComparableTree) Insert(key Comparable, value interface{}) {
+	t.mutex.Lock()
 	n := t.root
 	n.lock()
 
@@ -406,6 +410,7 @@ func (t *ComparableTree) Insert(key Comparable, value interface{}) {
 			n = right
 		}
 	}
+	t.mutex.Unlock()
 
 	for n.isInternal() {
 		parent := n.(*comparableInternalNode)
@@ -483,8 +488,10 @@ func (t *ComparableTree) Insert(key Comparable, value interface{}) {
 func (t *ComparableTree) Search(key Comparable) (interface{}, bool) {
 	var value interface{}
 	var ok bool
+	t.mutex.Lock()
 	n := t.root
 	n.lock()
+	t.mutex.Unlock()
 	for n.isInternal() {
 		parent := n.(*comparableInternalNode)
 		child := parent.children[comparableSearchLessThanOrEqualTo(key, parent.runts)]
@@ -513,6 +520,7 @@ func (t *ComparableTree) Search(key Comparable) (interface{}, bool) {
 // returns, the key will exist in the tree with the new value returned by the
 // callback function.
 func (t *ComparableTree) Update(key Comparable, callback func(interface{}, bool) interface{}) {
+	t.mutex.Lock()
 	n := t.root
 	n.lock()
 
@@ -535,6 +543,7 @@ func (t *ComparableTree) Update(key Comparable, callback func(interface{}, bool)
 			n = right
 		}
 	}
+	t.mutex.Unlock()
 
 	for n.isInternal() {
 		parent := n.(*comparableInternalNode)
@@ -619,8 +628,10 @@ func (t *ComparableTree) Update(key Comparable, callback func(interface{}, bool)
 // of the locked node. The leaf node is only unlocked either by closing the
 // Cursor, or after all key-value pairs have been visited using Scan.
 func (t *ComparableTree) NewScanner(key Comparable) *ComparableCursor {
+	t.mutex.Lock()
 	n := t.root
 	n.lock()
+	t.mutex.Unlock()
 	for n.isInternal() {
 		parent := n.(*comparableInternalNode)
 		child := parent.children[comparableSearchLessThanOrEqualTo(key, parent.runts)]
